@@ -116,21 +116,25 @@ func c26Snap(ids *c26Ids, sn *data.Snapshot) string {
 
 // ---- description of one run ----
 type c26Target struct {
-	path     string // unique Paths[0] of the snapshot (identifies it across rewrites)
-	fresKind string // "err" | "null" | "same" | "changed" | "tree:<hex>"
-	identity bool   // generator knows that no filter / repair changes the tree
-	ret      int    // 0 unobserved, 1 err, 2 changed=false, 3 changed=true
+	path       string // unique Paths[0] of the snapshot (identifies it across rewrites)
+	fresKind   string // "err" | "null" | "same" | "changed" | "tree:<hex>"
+	identity   bool   // generator knows that no filter / repair changes the tree
+	ret        int    // 0 unobserved, 1 err, 2 changed=false, 3 changed=true
+	unreadable bool   // the load of this snapshot file is made to fail in this run
+	named      bool   // its id is given on the command line
 }
 
 type c26Run struct {
-	kind    string
-	cmdTerm string // Coq term of type cmd
-	rewrite bool   // MAbort semantics (rewrite / repair) vs tag
-	targets []*c26Target
-	exact   bool
-	do      func(e *venv) // runs the command(s)
-	cut     int           // -1: none
-	failAt  int           // -1: none
+	kind          string
+	cmdTerm       string // Coq term of type cmd
+	rewrite       bool   // MAbort semantics (rewrite / repair) vs tag
+	targets       []*c26Target
+	exact         bool
+	do            func(e *venv) // runs the command(s)
+	cut           int           // -1: none
+	failAt        int           // -1: none
+	loadFail      string        // Paths[0] of the snapshot whose file cannot be loaded ("" = none)
+	loadFailTimes int           // how many loads of it fail (2 = transient: LoadRaw retries once)
 }
 
 func c26CopyDir(src, dst string) error {
@@ -267,6 +271,20 @@ func c26Execute(c *vctx, w *c26World, e *venv, r *c26Run) (trace []vop, err erro
 			return nil
 		}
 	}
+	if r.loadFail != "" {
+		name := ""
+		for _, sn := range pre[r.loadFail] {
+			name = sn.ID().String()
+		}
+		cnt := 0
+		e.rec.OnOp = func(o *vop) error {
+			if o.Op == "Load" && o.Type == backend.SnapshotFile && o.Name == name && cnt < r.loadFailTimes {
+				cnt++
+				return backoff.Permanent(errVerifCut)
+			}
+			return nil
+		}
+	}
 	tdo := time.Now()
 	r.do(e)
 	if os.Getenv("C26_TIMING") != "" {
@@ -374,10 +392,10 @@ func c26Execute(c *vctx, w *c26World, e *venv, r *c26Run) (trace []vop, err erro
 	sort.SliceStable(items, func(i, j int) bool { return items[i].pos < items[j].pos })
 	// with faults only the snapshots that were actually taken up are part of the run (an error
 	// cancels the listing; snapshots already loaded by parallel workers are still processed)
-	if r.cut >= 0 || r.failAt >= 0 {
+	if r.cut >= 0 || r.failAt >= 0 || r.loadFail != "" {
 		var kept []*itemT
 		for _, it := range items {
-			if it.pos < 1<<30 || len(r.targets) == 1 {
+			if it.pos < 1<<30 || len(r.targets) == 1 || it.t.unreadable {
 				kept = append(kept, it)
 			}
 		}
@@ -478,9 +496,9 @@ func c26Execute(c *vctx, w *c26World, e *venv, r *c26Run) (trace []vop, err erro
 		if r.rewrite && it.old.Original != nil && it.neu != nil {
 			origSet = true
 		}
-		itemTerms = append(itemTerms, fmt.Sprintf("(mkI %s %s %s %s %s %s %s %s)",
+		itemTerms = append(itemTerms, fmt.Sprintf("(mkI %s %s %s %s %s %s %s %s %s %s)",
 			coqN(ids.n(it.old.ID().String())), c26Snap(ids, it.old), coqN(ids.n(first)), fres,
-			coqBool(t.identity), coqList(dl), neu, coqN(uint64(t.ret))))
+			coqBool(t.identity), coqList(dl), neu, coqN(uint64(t.ret)), coqBool(t.unreadable), coqBool(t.named)))
 		h := fmt.Sprintf("%s tags=%v orig=%v", it.old.ID().Str(), it.old.Tags, it.old.Original != nil)
 		if it.neu != nil {
 			h += fmt.Sprintf(" -> %s tags=%v orig=%v treeSame=%v", it.neu.ID().Str(), it.neu.Tags,
@@ -528,6 +546,9 @@ func c26Execute(c *vctx, w *c26World, e *venv, r *c26Run) (trace []vop, err erro
 		kind += "-cut"
 	} else if r.failAt >= 0 {
 		kind += "-fault"
+	}
+	if r.loadFail != "" {
+		kind += "-load-fails"
 	}
 	if origSet {
 		kind += "+orig-set"
@@ -749,6 +770,7 @@ type c26Ropts struct {
 	host                   string
 	newTime                *time.Time
 	summaryMatch           bool
+	repair                 bool
 }
 
 func c26RewriteCmd(o c26Ropts) string {
@@ -756,8 +778,8 @@ func c26RewriteCmd(o c26Ropts) string {
 	if o.newTime != nil {
 		nt = "(Some " + coqZ(o.newTime.Unix()) + ")"
 	}
-	return fmt.Sprintf("(CRewrite (mkR %s %s %s %s %s %s %s %s))", coqBool(o.dry), coqBool(o.forget), coqBool(o.keepEmpty),
-		c26Bytes(o.addTag), coqBool(o.meta), c26Bytes(o.host), nt, coqBool(o.summaryMatch))
+	return fmt.Sprintf("(CRewrite (mkR %s %s %s %s %s %s %s %s %s))", coqBool(o.dry), coqBool(o.forget), coqBool(o.keepEmpty),
+		c26Bytes(o.addTag), coqBool(o.meta), c26Bytes(o.host), nt, coqBool(o.summaryMatch), coqBool(o.repair))
 }
 
 func c26T(i int) time.Time { return time.Unix(1600000000+int64(i)*3600, 0).UTC() }
@@ -946,10 +968,109 @@ func engineC26(c *vctx) error {
 					args = append(args, "--forget")
 				}
 				return &c26Run{kind: fmt.Sprintf("repair-cli-forget=%v", forget), rewrite: true, targets: targets, exact: false,
-					cmdTerm: c26RewriteCmd(c26Ropts{forget: forget, addTag: "repaired", summaryMatch: true}),
+					cmdTerm: c26RewriteCmd(c26Ropts{forget: forget, addTag: "repaired", summaryMatch: true, repair: true}),
 					do:      func(e *venv) { _, _, _ = e.cli(args...) }}
 			}
 			if err := c26Scenario(c, w, e, fmt.Sprintf("c26-rep-%v", forget), mk, forget || c.thorough()); err != nil {
+				return err
+			}
+		}
+		_ = os.RemoveAll(e.base)
+	}
+
+	// ---------- family E: the snapshot FILE cannot be loaded (transiently, on intact snapshots) ----------
+	{
+		e, err := c26Clone(c, b.e, "c26-loadrepo")
+		if err != nil {
+			return err
+		}
+		specs := []c26Spec{
+			{path: "/c26/u0", tree: &b.tree, tags: []string{"ok"}, host: "h0", t: c26T(30)},
+			{path: "/c26/u1", tree: &b.tree2, tags: nil, host: "h1", t: c26T(31)},
+			{path: "/c26/u2", tree: &b.bad, tags: []string{"t"}, host: "h2", t: c26T(32)},
+		}
+		if err := c26AddSnapshots(w, e, specs); err != nil {
+			return err
+		}
+		pre, _, err := c26Snapshots(e)
+		if err != nil {
+			return err
+		}
+		idOf := func(path string) string {
+			for _, sn := range pre[path] {
+				return sn.ID().String()
+			}
+			return ""
+		}
+		type lv struct {
+			cmd           string
+			forget, named bool
+			dry           bool
+			victim        string
+			times         int
+		}
+		variants := []lv{
+			{"repair", true, false, false, "/c26/u0", 2},
+			{"repair", true, true, false, "/c26/u0", 2},
+			{"repair", false, true, false, "/c26/u0", 2},
+			{"repair", false, false, false, "/c26/u1", 2},
+			{"repair", true, true, true, "/c26/u1", 2},
+			{"repair", true, false, false, "/c26/u2", 1000},
+			{"rewrite", true, false, false, "/c26/u0", 2},
+			{"tag", true, false, false, "/c26/u1", 2},
+		}
+		for vi, v := range variants {
+			v := v
+			var targets []*c26Target
+			for _, sp := range specs {
+				if v.named && sp.path != v.victim {
+					continue // only the named snapshot is processed
+				}
+				t := &c26Target{path: sp.path, fresKind: "same", identity: true}
+				if sp.path == "/c26/u2" && v.cmd == "repair" {
+					t.fresKind, t.identity = "changed", false
+				}
+				if v.cmd == "rewrite" {
+					t.fresKind, t.identity = "changed", false
+				}
+				if sp.path == v.victim {
+					t.unreadable, t.named = true, v.named
+				}
+				targets = append(targets, t)
+			}
+			var args []string
+			var cmdTerm string
+			switch v.cmd {
+			case "repair":
+				args = []string{"repair", "snapshots"}
+				cmdTerm = c26RewriteCmd(c26Ropts{dry: v.dry, forget: v.forget, addTag: "repaired", summaryMatch: true, repair: true})
+			case "rewrite":
+				args = []string{"rewrite", "--exclude", "*.log"}
+				cmdTerm = c26RewriteCmd(c26Ropts{forget: v.forget, addTag: "rewrite", summaryMatch: false})
+			default:
+				args = []string{"tag", "--add", "zz"}
+				cmdTerm = c26TagCmd(nil, []string{"zz"}, nil)
+			}
+			if v.forget && v.cmd != "tag" {
+				args = append(args, "--forget")
+			}
+			if v.dry {
+				args = append(args, "--dry-run")
+			}
+			if v.named {
+				args = append(args, idOf(v.victim))
+			}
+			run := &c26Run{kind: fmt.Sprintf("%s-cli-unreadable-forget=%v-named=%v", v.cmd, v.forget, v.named), cmdTerm: cmdTerm,
+				rewrite: v.cmd != "tag", targets: targets, exact: false, cut: -1, failAt: -1,
+				loadFail: v.victim, loadFailTimes: v.times,
+				do: func(e *venv) { _, _, _ = e.cli(args...) }}
+			cl, err := c26Clone(c, e, fmt.Sprintf("c26-load%d", vi))
+			if err != nil {
+				return err
+			}
+			_, err = c26Execute(c, w, cl, run)
+			_ = os.RemoveAll(cl.base)
+			if err != nil {
 				return err
 			}
 		}
